@@ -59,7 +59,12 @@ def reference(n, succ, flagged, red):
     return want
 
 
+_TIMEOUTS = [0]   # per worker process: after a few non-terminating cases the rest of the chunk is not executed
+
+
 def run_case(ctx, n, edges, fl, red, names):
+    if _TIMEOUTS[0] >= 3:
+        return [("analysis_terminates", "not executed: 3 earlier cases of this chunk did not terminate", "returns")]
     succ = {i: set(j for (a, j) in edges if a == i) for i in range(n)}
     flagged = {i for i in range(n) if fl >> i & 1}
     ctx.db_conn.execute("DELETE FROM pages")
@@ -83,11 +88,12 @@ def run_case(ctx, n, edges, fl, red, names):
         return used, i in flagged
 
     signal.signal(signal.SIGALRM, _alarm)
-    signal.setitimer(signal.ITIMER_REAL, 5.0)
+    signal.setitimer(signal.ITIMER_REAL, 2.0)
     try:
         ctx.analyze_templates(clf)
     except Timeout:
-        return [("analysis_terminates", "no result within 5 s", "returns")]
+        _TIMEOUTS[0] += 1
+        return [("analysis_terminates", "no result within 2 s", "returns")]
     finally:
         signal.setitimer(signal.ITIMER_REAL, 0)
     want = reference(n, succ, flagged, red)
